@@ -384,3 +384,24 @@ def run(ctx):
         "with debug = true `solve` returns Ok without convergence (modelled and proved: C18_solve_ok_iff); the property is read for debug = false",
         "Newton stages never update the bulk densities: with a particle-number specification they end in Err(NotConverged) (no false success)",
     ])
+
+
+def replay(rp):
+    """re-run the harness with the tier/seed of the replay and show what the implementation does now on the named input"""
+    import json
+    print(json.dumps({k: rp[k] for k in rp if k not in ("mismatches",)}, indent=1)[:3000])
+    inputs = [f["input"] for f in rp.get("failing", []) if "input" in f]
+    if isinstance(rp.get("input"), dict) and "system" in rp["input"]:
+        inputs.append(rp["input"])
+    if not inputs:
+        return 0
+    ctx = V.Ctx("C18_replay", rp.get("tier", "quick"), rp.get("seed", 1))
+    impl = V.run_harness("c18", ctx)
+    for want in inputs:
+        for s in impl["solves"]:
+            k = solve_key(s)
+            if k["system"] == want["system"] and k["chain"] == want["chain"] and k["debug"] == want["debug"] and k["specification"] == want["specification"]:
+                a = s.get("after") or {}
+                print("now on the implementation: %s | %s | result %s | residual of the returned profile %s (tolerance %s) | particles %s, specified %s | min density %s"
+                      % (s["system"], s["chain"], s["result"], a.get("res_norm"), s["tol_last"], s["moles_seg"], s["spec_N"], s["min_rho"]))
+    return 0
